@@ -8,8 +8,8 @@ import registry
 M = dict(
     version=1,
     setup_cmd='./setup.sh',
-    hooks=dict(guard='cargo feature verif-hooks (crates/anemo)',
-               enable='the replay crate /verif/replay depends on /repo/crates/anemo with features=["verif-hooks"]; proofs need no hook (they read source text)',
+    hooks=dict(guard='cargo feature verif-hooks (crates/anemo) = the group features verif-hooks-{wire,cm,crypto,conn,timeout}; all off by default',
+               enable='the replay crate /verif/replay enables the group features of /repo/crates/anemo through its own features hooks-*; a group whose wrappers no longer compile after an edit is left out (vc/replaylib.py); proofs need no hook (they read source text)',
                baseline_off_cmd='cd /repo && cargo test --workspace --no-fail-fast --offline',
                source_commits=registry.HOOK_COMMITS, add_only=True),
     engines=[dict(name='vc', path='/verif/vc', serves_properties=sorted(registry.PROPERTIES),
